@@ -196,12 +196,16 @@ def gen_case(seed, tier='quick'):
     if cls == 'longcycle':
         # only single-target constructs: the shortest cycle really is Lc
         weights = [78, 10, 0, 12, 0, 0]
+    if cls == 'deep_chain':
+        # one precedent per cell and mentioned once: the evaluator walks
+        # every path again, anything wider costs exponential time
+        weights = [88, 0, 0, 12, 0, 0]
 
     def kind():
         return rng.choices(CONSTRUCTS, weights)[0]
 
     link_heavy = rng.random() < 0.15       # mostly bare references
-    if link_heavy:
+    if link_heavy and cls != 'deep_chain':
         weights = [90, 2, 2, 4, 2, 0]
     lower = lambda i: (lambda j: j < i)          # noqa: E731
     anyj = lambda i: (lambda j: True)            # noqa: E731
@@ -787,7 +791,8 @@ def _run_case(case):
                               low_stack=bool(op.get('stack')))
             fails_at_once = bool(g.nodes[addr].get('fail_first'))
             if not exp['cyc_live'] and not fails_at_once and \
-                    simple_paths(g, addr) >= 400:
+                    simple_paths(g, addr, 2000 if g.deep else 400) >= (
+                        2000 if g.deep else 400):
                 # exponential cost of a *successful* re-evaluating walk is
                 # not part of this property
                 bump('skipped_expensive')
